@@ -19,7 +19,9 @@ type Interp struct {
 	// NilKeeps: in update assignments a nil pointer/slice/map source leaves the target field untouched
 	// (the alternative, equally acceptable behaviour for zero-valued nillable sources without a zero-value setting).
 	NilKeeps bool
-	depth    int
+	// Ambiguous: entries of one map end the conversion differently (error vs panic); iteration order decides
+	Ambiguous bool
+	depth     int
 }
 
 // ModelPanic is raised by the interpreter where the model says the generated code must panic (enum @panic).
@@ -108,16 +110,47 @@ func (in *Interp) Eval(p *Plan, src reflect.Value, dt reflect.Type) (out reflect
 		}
 		m := reflect.MakeMapWithSize(dt, src.Len())
 		it := src.MapRange()
+		// Go iterates maps in random order: when several entries end the conversion differently (one with an
+		// error, another with a panic) either outcome is possible. All entries are evaluated to find out.
+		var firstErr error
+		var firstPanic any
 		for it.Next() {
-			k, err := in.Eval(p.K, it.Key(), dt.Key())
-			if err != nil {
-				return reflect.Zero(dt), &PathErr{Kind: "key", Key: it.Key().Interface(), Err: err}
-			}
-			v, err := in.Eval(p.V, it.Value(), dt.Elem())
-			if err != nil {
-				return reflect.Zero(dt), &PathErr{Kind: "key", Key: it.Key().Interface(), Err: err}
-			}
-			m.SetMapIndex(k, v)
+			func() {
+				defer func() {
+					if r := recover(); r != nil {
+						if _, ok := r.(*ModelPanic); !ok {
+							panic(r)
+						}
+						if firstPanic == nil {
+							firstPanic = r
+						}
+					}
+				}()
+				k, err := in.Eval(p.K, it.Key(), dt.Key())
+				if err != nil {
+					if firstErr == nil {
+						firstErr = &PathErr{Kind: "key", Key: it.Key().Interface(), Err: err}
+					}
+					return
+				}
+				v, err := in.Eval(p.V, it.Value(), dt.Elem())
+				if err != nil {
+					if firstErr == nil {
+						firstErr = &PathErr{Kind: "key", Key: it.Key().Interface(), Err: err}
+					}
+					return
+				}
+				m.SetMapIndex(k, v)
+			}()
+		}
+		switch {
+		case firstErr != nil && firstPanic != nil:
+			in.Ambiguous = true
+			return reflect.Zero(dt), firstErr
+		case firstPanic != nil:
+			panic(firstPanic)
+		case firstErr != nil:
+			return reflect.Zero(dt), firstErr
 		}
 		if m.Len() < src.Len() {
 			in.NonInjective = true
